@@ -2,6 +2,7 @@
 // (only for TUs that can include the host <map>/<set>, i.e. not the compat/std shim TU).
 #pragma once
 #include "c02_flat.hpp"
+#include "c02_flat_large.hpp"
 #include <map>
 #include <set>
 
@@ -22,5 +23,24 @@ namespace c02
         void insert(int k) { s.insert(k); }
         void clear() { s.clear(); }
         bool agrees(const std::vector<int> &r) const { return std::vector<int>(s.begin(), s.end()) == r; }
+    };
+    struct StdRecRef
+    {
+        std::map<Rec, int> m;
+        void insert(Rec k, int v) { m.insert({k, v}); }
+        void set(Rec k, int v) { m[k] = v; }
+        void index(Rec k) { (void)m[k]; }
+        bool agrees(const std::vector<std::pair<Rec, int>> &r) const
+        {
+            if (m.size() != r.size())
+                return false;
+            for (auto &e : r)
+            {
+                auto it = m.find(e.first);
+                if (it == m.end() || it->first != e.first || it->second != e.second)
+                    return false;
+            }
+            return true;
+        }
     };
 }
